@@ -5,7 +5,10 @@ Nothing executes smartcalc. Python 3.11 stdlib only.
 """
 import json
 import re
+import sys
 import collections
+
+sys.setrecursionlimit(20000)
 
 
 class AnchorLost(Exception):
@@ -239,6 +242,24 @@ class Body:
                     out.append((d, self.expr(t['discr']), vals))
         return out
 
+    def branch_conditions(self, where):
+        """conditions of a phi branch: `where` is a block id (definition block) or a CFG edge (pred, succ)"""
+        if not isinstance(where, tuple):
+            return self.conditions(where)
+        p, succ = where
+        out = list(self.conditions(p))
+        t = self.blocks[p]['term']
+        if t['k'] == 'switch':
+            vals = frozenset(v for v, tgt in t['vals'] if tgt == succ)
+            others = [tgt for v, tgt in t['vals'] if tgt != succ] + ([t['otherwise']] if t['otherwise'] != succ else [])
+            if others:
+                if t['otherwise'] == succ:
+                    excl = frozenset(v for v, tgt in t['vals'] if tgt != succ)
+                    out.append((p, self.expr(t['discr']), ('else', excl)))
+                elif vals:
+                    out.append((p, self.expr(t['discr']), vals))
+        return out
+
     def _reach_avoiding(self, a, b, avoid):
         if a == avoid:
             return False
@@ -467,7 +488,7 @@ class Body:
         alld = self.defs().get(l, [])
         if 1 <= l <= self.argc and not alld:
             return ('arg', l, self.arg_names.get(l))
-        if depth > 40:
+        if depth > 400:
             return ('top', 'depth')
         if self._shallow and (depth > 0 or self._shallow == 'all') and l in self.names:
             return ('var', l, self.names[l])
@@ -476,11 +497,10 @@ class Body:
                 return ('top', 'retslot')
             return ('undef', l, self.names.get(l))
         if at is not None and (len(alld) > 1 or 1 <= l <= self.argc):
-            ds = self.reaching(l, at)
-        else:
-            ds = list(alld)
-            if 1 <= l <= self.argc:
-                ds.append((0, 'entry', None))
+            return self._value_at(l, at, depth, seen)
+        ds = list(alld)
+        if 1 <= l <= self.argc:
+            ds.append((0, 'entry', None))
         outs = []
         bids = []
         for (bid, kind, x) in ds:
@@ -500,6 +520,70 @@ class Body:
         if len(outs) == 1:
             return outs[0]
         return ('phi', l, outs, self.names.get(l), bids, self.path, None)
+
+    # --- SSA-like values of multiply-assigned locals: phi nodes sit at the merge points, branches are CFG edges
+    def _def_value(self, l, d, depth, seen):
+        bid, kind, x = d
+        if kind == 'entry':
+            return ('arg', l, self.arg_names.get(l))
+        key = (l, id(x))
+        if key in seen:
+            return ('loop', l, self.names.get(l))
+        return self.def_expr(bid, kind, x, depth + 1, seen | {key})
+
+    def _last_def_in(self, l, bid, before=None):
+        best = None
+        for d in self.defs().get(l, []):
+            if d[0] != bid:
+                continue
+            dp = self._defpos[id(d[2])]
+            if before is not None and not (d[1] == 'stmt' and dp[1] < before):
+                continue
+            if best is None or dp[1] >= self._defpos[id(best[2])][1]:
+                best = d
+        return best
+
+    def _value_at(self, l, at, depth, seen):
+        bid, idx = at
+        self.defs()
+        d = self._last_def_in(l, bid, before=idx)
+        if d is not None:
+            return self._def_value(l, d, depth, seen)
+        return self._value_in(l, bid, depth, seen)
+
+    def _value_in(self, l, bid, depth, seen):
+        key = ('in', l, bid)
+        if key in seen:
+            return ('loop', l, self.names.get(l))
+        if depth > 400:
+            return ('top', 'depth')
+        IN = self._rd_in(l).get(bid, [])
+        if len(IN) == 1:
+            return self._def_value(l, IN[0], depth, seen)
+        if not IN:
+            return ('undef', l, self.names.get(l))
+        seen = seen | {key}
+        P = [p for p in self.preds().get(bid, []) if p in self.dominators()]
+        if len(P) == 1:
+            return self._value_out(l, P[0], depth + 1, seen)
+        outs, edges = [], []
+        for p in sorted(P):
+            outs.append(self._value_out(l, p, depth + 1, seen))
+            edges.append((p, bid))
+        # merge identical branch values (same reaching definition through several goto blocks)
+        uniq = []
+        for o, e in zip(outs, edges):
+            if not any(o is u or o == u for u, _ in uniq):
+                uniq.append((o, e))
+        if len(uniq) == 1:
+            return uniq[0][0]
+        return ('phi', l, [u for u, _ in uniq], self.names.get(l), [e for _, e in uniq], self.path, None)
+
+    def _value_out(self, l, bid, depth, seen):
+        d = self._last_def_in(l, bid)
+        if d is not None:
+            return self._def_value(l, d, depth, seen)
+        return self._value_in(l, bid, depth, seen)
 
     def ret_expr(self):
         """value of the return slot at the Return terminator(s)"""
@@ -636,7 +720,7 @@ def alternatives(body, e, limit=64, _conds=()):
         sub = e[6] if len(e) > 6 else None
         for br, bid in zip(e[2], e[4]):
             cs = []
-            for (_, d, v) in b2.conditions(bid):
+            for (_, d, v) in b2.branch_conditions(bid):
                 cs.append((subst_args(d, sub) if sub is not None else d, v))
             out += alternatives(body, br, limit, tuple(_conds) + tuple(cs))
             if len(out) > limit:
